@@ -1132,7 +1132,7 @@ def to_coq(case, obs):
         fl = obs.get("flat", DUMMY)
         term = "(%s, %s, %s, %s, %s, %s)" % (
             _cparse(obs["parse"], I), L.text(case["cls"]), _ckw(case["kw"], I), L.text(obs.get("fresh") or ""),
-            _cres(b, lambda a: _ccolumn(a, I)),
+            "(%s : result column)" % _cres(b, lambda a: _ccolumn(a, I)),
             _crobs(b[1], fl, I) if b[0] == "ok" else "(RFull (Raise OtherExn))")
         if not case.get("steps") or b[0] != "ok" or "steps" not in obs:
             return ("flat", term)
@@ -1169,7 +1169,8 @@ def to_coq(case, obs):
     if built is not None:
         od, orest = _cod(obs["dict"], built, I), _corest(obs["restored"], built, I)
     top = "(%s)" % ", ".join(_cpv(v, I) for v in [case["name"], case["aliases"], case["pk"]] + case["stats"])
-    term = "(%s, %s, %s, %s, %s)" % (_cparse(obs["parse"], I), top, L.lst(cols), od, orest)
+    # the annotations keep a shard typable when none of its cases got as far as a schema (every od / orest a bare Raise)
+    term = "(%s, %s, %s, (%s : result odict), (%s : result oschema))" % (_cparse(obs["parse"], I), top, L.lst(cols), od, orest)
     if not case.get("steps") or built is None or "steps" not in obs:
         return ("schema", term)
     ops = []
@@ -1395,6 +1396,57 @@ def _decimal_params(tev):
     return (int(m.group(1)), int(m.group(2))) if m else (28, 21)
 
 
+def _overscale_decimal(rng_or_none, scale, int_digits=1, extra=3, as_decimal=False, negative=False):
+    """a DECIMAL default with `extra` more decimal places than `scale` (last digit non-zero, so every place counts)"""
+    digits = "1234567890123456789012345678901234567891"
+    frac = digits[:scale + extra - 1] + "7"
+    text = ("-" if negative else "") + digits[:int_digits] + "." + frac
+    return _dec_ev(text) if as_decimal else S_(text)
+
+
+def _keyword_declared_cases():
+    """the SECOND way of declaring a column's parameters: by keyword (all, or only some of them - the library derives
+    the rest: precision from the decimal context, scale = int(0.75 * precision), ARRAY elements VARCHAR) instead of by
+    the type name, with defaults that only fit once the derived parameters are applied.  Each as a one-column schema
+    (dictionary, JSON, flatten, description, validate) and through a column subclass (flatten)."""
+    k = 0
+
+    def ident():
+        nonlocal k
+        k += 1
+        return ["identity", S_("%016x" % (0xD16 * 2 ** 32 + k))]
+
+    specs = []
+    for tev in (S_("DECIMAL"), ["ty", "DECIMAL"], S_("decimal")):
+        for p in (4, 8, 10, 18, 28, 38):                     # precision only: scale derived as int(0.75 * p)
+            sc = (3 * p) // 4
+            for as_dec in (False, True):
+                specs.append([["type", tev], ["precision", I_(p)], ["default", _overscale_decimal(None, sc, 1, 3, as_dec, negative=(p == 18))]])
+        for sc in (0, 2, 7, 21):                             # scale only: precision from the decimal context
+            specs.append([["type", tev], ["scale", I_(sc)], ["default", _overscale_decimal(None, sc, 2, 4)]])
+        for p, sc in ((10, 2), (5, 0), (38, 30), (20, 4)):   # both by keyword (the name form's twin)
+            specs.append([["type", tev], ["precision", I_(p)], ["scale", I_(sc)], ["default", _overscale_decimal(None, sc, min(3, p - sc) or 1, 2)]])
+            specs.append([["type", S_("DECIMAL(%d,%d)" % (p, sc))], ["default", _overscale_decimal(None, sc, min(3, p - sc) or 1, 2)]])
+        # nothing declared: more significant digits / more places than the context precision and its 3/4 give
+        specs.append([["type", tev], ["default", S_("12345678.123456789012345678901")]])
+        specs.append([["type", tev], ["default", _dec_ev("0.1234567890123456789012345")]])
+        specs.append([["type", tev], ["default", S_("3.7")]])
+    # a keyword next to a name that already says it (the keyword wins), one parameter each
+    specs.append([["type", S_("DECIMAL(10,2)")], ["precision", I_(5)], ["default", S_("1.123456789")]])
+    specs.append([["type", S_("DECIMAL(10,2)")], ["scale", I_(4)], ["default", S_("1.123456789")]])
+    specs.append([["type", S_("VARCHAR[10]")], ["length", I_(2)], ["default", S_(CUT_TEXTS[0])]])
+    specs.append([["type", S_("BLOB[2]")], ["length", I_(5)], ["default", S_(CUT_TEXTS[2])]])
+    # ARRAY: element type by keyword, by name, both, none - with elements that need the cast
+    for tev, extra in ((S_("ARRAY"), [["element_type", S_("INTEGER")]]), (S_("ARRAY<INTEGER>"), []), (S_("ARRAY<VARCHAR>"), [["element_type", S_("INTEGER")]]),
+                       (["ty", "ARRAY"], [["element_type", ["ty", "INTEGER"]]]), (S_("ARRAY"), [["element_type", S_("DOUBLE")]])):
+        specs.append([["type", tev]] + extra + [["default", ["l", [S_("1"), S_("2")]]]])
+    for kw in specs:
+        yield _one([[["name", S_("amount")]] + kw + [ident()]], pk=S_("amount"))
+    for cls in ("ConstantColumn", "FunctionColumn", "SparseColumn"):
+        for kw in specs[0:2] + specs[12:14] + specs[16:17] + specs[24:25]:
+            yield {"kind": "flat", "cls": cls, "focus": None, "kw": [["name", S_("amount")]] + kw + [ident()]}
+
+
 def _column(rng, name, toggles=None, form=None):
     """toggles: set of optional attributes to give (None = random)"""
     label, tev, base = form if form is not None else _rand_type(rng)
@@ -1404,7 +1456,24 @@ def _column(rng, name, toggles=None, form=None):
         kw.append(["type", tev])
     if on("default"):
         pool = DEFAULTS.get(base, [])
-        if base == "DECIMAL" and (rng.random() < 0.6 or label.startswith("wide-decimal")):
+        if base == "DECIMAL" and toggles is None and not (tev[0] == "s" and "(" in tev[1]) and rng.random() < 0.5:
+            # parameters (partly) by keyword, the rest derived by the library; the default has more places than the scale in force
+            r = rng.random()
+            p = rng.choice([4, 8, 10, 18, 28, 38])
+            if r < 0.45:
+                kw.append(["precision", I_(p)])
+                sc = (3 * p) // 4
+            elif r < 0.65:
+                sc = rng.choice([0, 2, 7, 21])
+                kw.append(["scale", I_(sc)])
+                p = 28
+            elif r < 0.85:
+                sc = rng.choice([x for x in (0, 2, 4, 7) if x <= p])
+                kw += [["precision", I_(p)], ["scale", I_(sc)]]
+            else:
+                p, sc = 28, 21
+            kw.append(["default", _overscale_decimal(None, sc, max(1, min(3, p - sc)), rng.choice([1, 3, 6]), rng.random() < 0.4, rng.random() < 0.3)])
+        elif base == "DECIMAL" and (rng.random() < 0.6 or label.startswith("wide-decimal")):
             kw.append(["default", _wide_decimal(rng, *_decimal_params(tev))])
         elif base in ("VARCHAR", "BLOB") and toggles is None and rng.random() < 0.5:
             kw.append(["default", _cut_default(rng, base)])
@@ -1548,6 +1617,8 @@ def exhaustive(tier):
             yield c
         for c in _repeated_name_cases():
             yield c
+        for c in _keyword_declared_cases():
+            yield c
         for c in _schema_session_cases():
             yield c
         for c in _flat_session_cases():
@@ -1560,7 +1631,8 @@ def exhaustive(tier):
     return it(), ("every type-name form (each member name, members given as enum, DECIMAL(p,s), VARCHAR[n], BLOB[n], ARRAY<T> for every scalar T, "
                   "untyped, 0/VARIANT) x each optional attribute alone and all together as a one-column schema; VARCHAR[n] / BLOB[n] for n in 1,2,3,4,5,8 x "
                   "defaults of 1- to 4-byte characters given as text and as bytes (length by name and by keyword); schemas with repeated column names "
-                  "(different identities, equal twins, the same object twice); every column class x every type form for to_flatcolumn")
+                  "(different identities, equal twins, the same object twice); parameters declared by keyword instead of by name (DECIMAL precision only / scale only / both / none, "
+                  "length, ARRAY element type; name + overriding keyword) with defaults exceeding the derived parameters; every column class x every type form for to_flatcolumn")
 
 
 def _cut_sweep():
@@ -2016,7 +2088,8 @@ LEVEL_TEXT = ("Machine-checked Coq theorems: for every well-formed column (any v
               "concretely (bytes vs characters, UTF-8 from Model/C08) and proved idempotent, so the default premise is proved for these types; the restored schema keeps every "
               "column in place whether or not names repeat. Object identity and mutation are explicit (heap of column objects, columns list as references, assignments, "
               "in-place appends, repeated saves): for every operation sequence the round trip and the flattening taken now depend on the current values only, and "
-              "flattening ignores every attribute outside the listed thirteen. The model is tied to orso/schema.py by running real schemas over every type-name form x each "
+              "flattening ignores every attribute outside the listed thirteen. The stored default of every constructed column is proved to be the cast under the column's final "
+              "parameters (declared by name, by keyword or derived), so for an idempotent parse every constructed column meets the default premise. The model is tied to orso/schema.py by running real schemas over every type-name form x each "
               "optional attribute (and random combinations) through all five operations and evaluating the model on the same inputs inside Coq; an "
               "attribute-by-attribute, type-strict oracle on the implementation supplies replayable failing inputs.")
 LEVEL_NOTE = ("Trusted: Coq kernel + vm_compute; the hand-written model; Model/C06 from_name for the re-parse of type names (ASCII); OrsoTypes.parse (C07) and "
@@ -2037,7 +2110,8 @@ RULE = ("schemas of 1-4 FlatColumns built through the real constructor from keyw
         "bytes; schemas whose columns share a name (renamed column, equal twin, the same object listed twice); all six column classes for to_flatcolumn; a case is non-trivial when every column definition was accepted; "
         "sessions: the single-shot observations first, then operations on the same live objects (assign an attribute, append in place to a list attribute of a column or of "
         "the schema, grow / shrink the columns list, scribble on the returned dictionary) interleaved with to_dict + from_dict, to_json + from_json and to_flatcolumn (all six classes; "
-        "length / default assigned after construction); distinct by the case without its random identities")
+        "length / default assigned after construction); parameters declared by keyword instead of by the type name (DECIMAL precision only / scale only / both / none, length, "
+        "ARRAY element type, a keyword overriding the name) with defaults that exceed the derived parameters; distinct by the case without its random identities")
 TRUSTED = [
     "C16 model (coq/Model/C16.v): a column is its attribute dictionary over the regenerated field list; FlatColumn.__init__ as collect/normalise steps",
     "Model/C06.v from_name (re-parse of type names, ASCII text), Model/C05.v validate (the restored schema is projected onto C05's column view), Model/C08.v utf8_encode / utf8_decode (the BLOB / VARCHAR length cut)",
